@@ -4,7 +4,10 @@ passes the repo's own tests, run the given checks, and revert.
 
   tools/trymut.py --file src/x.rs --from 'a' --to 'b' [--nth N] -- C06 C01
   tools/trymut.py --patch seeded/x/patch.diff -- C06
-Options: --tier quick|thorough (default quick), --skip-tests
+Options: --tier quick|thorough (default quick), --skip-tests,
+  --scratch: work on a throw-away git worktree of /repo (under /tmp) instead of /repo
+  itself, so that it can run while other checks are using /repo; the worktree and its
+  build output are removed afterwards.
 Exit code 0 if at least one check flagged the mutant (exit 1 of a check).
 """
 import subprocess
@@ -29,11 +32,18 @@ def main():
     i = 0
     flags = set()
     while i < len(opts):
-        if opts[i] in ("--skip-tests",):
+        if opts[i] in ("--skip-tests", "--scratch"):
             flags.add(opts[i]); i += 1
         else:
             o[opts[i]] = opts[i + 1]; i += 2
     tier = o.get("--tier", "quick")
+    global REPO
+    scratch = None
+    if "--scratch" in flags:
+        import hashlib, shutil
+        scratch = "/tmp/tm-%d" % os.getpid()
+        sh(["git", "-C", "/repo", "worktree", "add", "--detach", scratch, "HEAD"])
+        REPO = scratch
     dirty = sh(["git", "status", "--porcelain", "--untracked-files=no"], cwd=REPO).stdout.strip()
     if dirty:
         print("refusing: /repo has uncommitted changes:\n" + dirty)
@@ -78,6 +88,8 @@ def main():
         caught = False
         for c in checks:
             env = dict(os.environ)
+            if scratch:
+                env["VERIF_REPO"] = scratch
             r = sh([os.path.join(VERIF, "check"), c, "--tier", tier], cwd=VERIF, env=env)
             tail = [l for l in r.stdout.splitlines() if l.startswith(("VIOLATION", "KNOWN", "INCONCLUSIVE", c + " ", "  violated"))]
             print("check %s -> exit %d\n  %s" % (c, r.returncode, "\n  ".join(t[:400] for t in tail[:6])))
@@ -86,9 +98,15 @@ def main():
         print("CAUGHT" if caught else "MISSED")
         return 0 if caught else 1
     finally:
-        sh(["git", "checkout", "--", "."], cwd=REPO)
-        # evidence files were rewritten by runs against the mutant: restore committed ones
-        sh(["git", "checkout", "--", "evidence"], cwd=VERIF)
+        if scratch:
+            tag = hashlib.sha1(os.path.realpath(scratch).encode()).hexdigest()[:8]
+            sh(["git", "-C", "/repo", "worktree", "remove", "--force", scratch])
+            shutil.rmtree(scratch, ignore_errors=True)
+            shutil.rmtree(os.path.join(VERIF, "target", "alt-" + tag), ignore_errors=True)
+        else:
+            sh(["git", "checkout", "--", "."], cwd=REPO)
+            # evidence files were rewritten by runs against the mutant: restore committed ones
+            sh(["git", "checkout", "--", "evidence"], cwd=VERIF)
 
 
 if __name__ == "__main__":
